@@ -349,10 +349,20 @@ def _results(run, P):
                 probs.append("result dims not passed")
             if kw.get("name") != f"{g.params()[0]}.name":
                 probs.append("name not carried over")
+        # every return hands back the array computed by the low-level remap (no shortcut path returning the source data)
+        low = "_nearest_neighbor" if key.startswith(NN) else "_inverse_distance_weighted_remap"
+        defs = LocalDefs(g.node)
+        rets = [r for r in ast.walk(g.node) if isinstance(r, ast.Return)]
+        for r in rets:
+            nodes, _names = defs.closure(r.value) if r.value is not None else ([], set())
+            if not any(isinstance(x, ast.Call) and (dotted(x.func) or [""])[-1] == low for e in nodes for x in ast.walk(e)):
+                probs.append(f"a return path ({norm(r)[:60]}) does not go through {low}: the data are handed back without consulting the nearest-neighbour search (e.g. an identity shortcut that trusts grid equality, which ignores edge order and supplied centres)")
+        if len(cons) > 1:
+            probs.append(f"{len(cons)} result constructions: expected one, fed by {low}")
         if probs:
             run.violation("IDX/remap-result", c, where(g), "; ".join(probs))
         else:
-            run.holds("IDX/remap-result", c, where(g, cons[0]), "dims = source dims with the last replaced by the destination dimension; attached to the destination grid")
+            run.holds("IDX/remap-result", c, where(g, cons[0]), "dims = source dims with the last replaced by the destination dimension; attached to the destination grid; every return fed by the low-level remap")
     for key in (f"{NN}:_nearest_neighbor_uxds", f"{IDW}:_inverse_distance_weighted_remap_uxds"):
         g = P.try_func(key)
         if g is None:
